@@ -40,7 +40,7 @@ def run(ctx):
     pcs = [m for m in st.methods.values() if any(isinstance(n, ast.Call) and isinstance(n.func, ast.Attribute) and n.func.attr == 'create_category_tuning'
                                                  for n in ast.walk(m.node))]
     grps = [m for m in st.methods.values() if m is not play and any(
-        isinstance(n, ast.Call) and isinstance(n.func, ast.Attribute) and n.func.attr == 'extract_recording_category' for n in ast.walk(m.node))]
+        isinstance(n, ast.Attribute) and n.attr == 'extract_recording_category' for n in ast.walk(m.node))]
     if play is None or len(pcs) != 1 or len(grps) != 1:
         raise AnalysisError('anchor-lost studio methods (per-category routine / grouping routine)')
     pc, grp = pcs[0], grps[0]
